@@ -2116,6 +2116,55 @@ impl Interpreter {
         }
     }
 
+    /// Create an uninitialised let/const binding in the current environment (temporal dead zone)
+    pub fn env_declare_uninitialized(&mut self, name: JsString) {
+        let mut env_ref = self.env.borrow_mut();
+        if let Some(data) = env_ref.as_environment_mut() {
+            data.bindings.insert(
+                VarKey(name),
+                Binding {
+                    value: JsValue::Undefined,
+                    mutable: true,
+                    initialized: false,
+                    import_binding: None,
+                },
+            );
+        }
+    }
+
+    /// Look a variable up like `env_get`, but report an unresolvable name as `None`
+    /// (used by `typeof name`); a binding in its temporal dead zone is still an error
+    pub fn env_try_get(&self, name: &JsString) -> Result<Option<JsValue>, JsError> {
+        match self.env_get(name) {
+            Ok(value) => Ok(Some(value)),
+            Err(e) => {
+                if self.env_is_uninitialized(name) {
+                    Err(e)
+                } else {
+                    Ok(None)
+                }
+            }
+        }
+    }
+
+    /// Does `name` resolve to a binding that is still in its temporal dead zone?
+    fn env_is_uninitialized(&self, name: &JsString) -> bool {
+        let mut current = Some(self.env.cheap_clone());
+        let key = VarKey(name.cheap_clone());
+        while let Some(env) = current {
+            let env_ref = env.borrow();
+            if let Some(data) = env_ref.as_environment() {
+                if let Some(binding) = data.bindings.get(&key) {
+                    return !binding.initialized;
+                }
+                current = data.outer.cheap_clone();
+            } else {
+                break;
+            }
+        }
+        false
+    }
+
     /// Define an import binding in the current environment (for live bindings)
     pub fn env_define_import(
         &mut self,
@@ -2289,6 +2338,12 @@ impl Interpreter {
             let mut env_ref = env.borrow_mut();
             if let Some(data) = env_ref.as_environment_mut() {
                 if let Some(binding) = data.bindings.get_mut(&key) {
+                    if !binding.initialized {
+                        return Err(JsError::reference_error(format!(
+                            "Cannot access '{}' before initialization",
+                            name
+                        )));
+                    }
                     if !binding.mutable {
                         return Err(JsError::type_error(format!(
                             "Assignment to constant variable '{}'",
